@@ -1384,7 +1384,8 @@ def spec_helpers(world, it=None):
         # ghost: how many times callback f has been applied so far
         if f is None:
             return 0
-        return SInt(it.ncalls.get(f.name, z3.IntVal(0)))
+        nm = f if isinstance(f, str) else f.name
+        return SInt(it.ncalls.get(nm, z3.IntVal(0)))
 
     d = dict(Int='Int', Str='Str', Val='Val', val=val, forall=forall,
              ncalls=ncalls,
